@@ -60,6 +60,21 @@ def run_one(prop, tier, seed, overlay=None, write=True, quiet=False, jobs=1):
             selftest = st.run_for_property(prop, jobs=jobs)
         except Exception as e:   # the self-test never changes the verdict
             selftest = {'error': '%s: %s' % (type(e).__name__, e)}
+        try:
+            # detection power on the filed seeds of this property (static analysis of patched scratch copies; informational)
+            from sa import seedcheck as sc
+            mx = sc.matrix_for_property(prop, jobs=max(1, jobs))
+            extra['seeded_changes'] = {
+                'purpose': 'what this check says about the realistic changes filed under /verif/seeded for this property: breaking '
+                           'changes (V = reported as violation, U = inconclusive, - = silent) and behaviour-preserving edits (must '
+                           'not be V); never changes the verdict on /repo',
+                'breaking': mx['breaking'], 'benign': mx['benign'],
+                'breaking_reported': sum(1 for v in mx['breaking'].values() if v in ('V', 'U')), 'breaking_total': len(mx['breaking']),
+                'benign_silent': sum(1 for v in mx['benign'].values() if v == '-'), 'benign_total': len(mx['benign']),
+                'benign_violations': sum(1 for v in mx['benign'].values() if v == 'V'),
+            }
+        except Exception as e:   # noqa: BLE001
+            extra['seeded_changes'] = {'error': '%s: %s' % (type(e).__name__, e)}
     wall = time.time() - t0
     if write:
         meta = dict(META[prop])
